@@ -138,6 +138,9 @@ def run_property(prop, tier="quick", root="/repo/verde", overlay=None, write=Tru
             _common.inherited_dtype_stores(ctx)
             _common.late_binding_closures(ctx)
             _common.set_iteration_order(ctx)
+            _common.memoised_results(ctx)
+            _common.falsy_defaults(ctx)
+            _common.chunked_loops(ctx)
     except UndecidedFunction as e:
         err = "ANALYSIS-UNDECIDED property=%s unsupported construct in %s" % (prop, e)
     except AnalysisError as e:
